@@ -427,6 +427,13 @@ func (w *inotify) handleEvent(inEvent *unix.InotifyEvent, buf *[65536]byte, offs
 	w.mu.Lock()
 	defer w.mu.Unlock()
 
+	// Stop if Close() was called in the meantime: the descriptor is (about to
+	// be) closed, and its number may already belong to something else, so we
+	// must not call inotify_rm_watch() or inotify_add_watch() on it any more.
+	if w.isClosed() {
+		return Event{}, false
+	}
+
 	/// If the event happened to the watched directory or the watched file, the
 	/// kernel doesn't append the filename to the event, but we would like to
 	/// always fill the the "Name" field with a valid filename. We retrieve the
